@@ -78,6 +78,8 @@ class Sim:
         self.locs = {} if record_locs else None
         self.monitor_codes = monitor_codes or {}
         self.monitor_hits = []
+        self.monitor_tagged = False  # record (thread, tag, label) instead of label
+        self.monitor_tag = {}
         self.last_loc = None
 
     # -- trace functions -----------------------------------------------------
@@ -90,7 +92,12 @@ class Sim:
         if kind is None:
             return None
         if self.monitor_codes and code in self.monitor_codes:
-            self.monitor_hits.append(self.monitor_codes[code])
+            if self.monitor_tagged:
+                s = self.sched
+                tid = s.current if s is not None else 0
+                self.monitor_hits.append((tid, self.monitor_tag.get(tid), self.monitor_codes[code]))
+            else:
+                self.monitor_hits.append(self.monitor_codes[code])
         return self.local_trace
 
     def local_trace(self, frame, event, arg):
